@@ -8,6 +8,7 @@ int main(void) {
   char spec[128], kind[8], num[64], out[512];
   while (scanf("%127s %7s %63s", spec, kind, num) == 3) {
     int n;
+    for (char *q = spec; *q; q++) if (*q == '_') *q = ' ';   /* the space flag travels as '_' */
     if (kind[0] == 'u') n = snprintf(out, sizeof out, spec, strtoull(num, NULL, 10));
     else if (kind[0] == 's') n = snprintf(out, sizeof out, spec, strtoll(num, NULL, 10));
     else n = snprintf(out, sizeof out, spec, (int)strtol(num, NULL, 10));
